@@ -96,7 +96,7 @@ def receiver(text, pos):
     return r.lstrip("&*!(")
 
 
-def audit_file(path, rel):
+def audit_file(path, rel, calls=()):
     src = open(path).read()
     txt = strip_comments(src)
     # line start offsets
@@ -126,6 +126,14 @@ def audit_file(path, rel):
         events.append((m.start(1), "op", (m.group(1), m.start())))
     for m in POINT_RE.finditer(txt):
         events.append((m.start(), "point", m.group(2)))
+    if calls:
+        # opt-in pseudo sites: calls of named functions / methods (static tables only: they have no run-time record)
+        cre = re.compile(r"(?<![A-Za-z0-9_])(" + "|".join(re.escape(c) for c in sorted(calls)) + r")\s*\(")
+        for m in cre.finditer(txt):
+            pre = txt[max(0, m.start() - 3):m.start()]
+            if pre.endswith("fn "):
+                continue
+            events.append((m.start(1), "call", m.group(1)))
     for i, c in enumerate(txt):
         if c == "{":
             events.append((i, "{", None))
@@ -152,7 +160,7 @@ def audit_file(path, rel):
             depth -= 1
             while stack and stack[-1][2] >= depth:
                 stack.pop()
-        elif kind in ("op", "point"):
+        elif kind in ("op", "point", "call"):
             if any(k == "mod" and n in ("tests", "test") for k, n, _ in stack):
                 continue
             fns = [n for k, n, _ in stack if k == "fn"]
@@ -188,6 +196,8 @@ def audit_file(path, rel):
                         continue
                     op = "segq." + op
                 opn = "cas" if op.startswith("compare_exchange") else op
+            elif kind == "call":
+                recv, opn, ords = "", "call." + data, []
             else:
                 recv, opn, ords = "", data, []
             key = (fn, recv, opn)
@@ -199,7 +209,7 @@ def audit_file(path, rel):
     return sites
 
 
-def audit(repo="/repo"):
+def audit(repo="/repo", calls=()):
     out = []
     for sub in ("src", "may_queue/src"):
         for dp, dn, fn in os.walk(os.path.join(repo, sub)):
@@ -208,7 +218,7 @@ def audit(repo="/repo"):
             for f in sorted(fn):
                 if f.endswith(".rs") and f not in ("kqueue.rs", "verif.rs"):
                     p = os.path.join(dp, f)
-                    out += audit_file(p, os.path.relpath(p, repo))
+                    out += audit_file(p, os.path.relpath(p, repo), calls)
     return out
 
 
